@@ -209,6 +209,9 @@ package scipipe
 //@   ensures no-slash: !contains(res, "/")
 //@   ensures prefixed: hasPrefix(res, "_scipipe_tmp") && len(res) > 12
 //@   ensures at-most-255-bytes: len(res) <= 255
+// Known finding F6: the pieces that identify a task (name, path segments of the inputs, name_value of parameters and
+// tags) are concatenated without a separator before hashing, so different tasks of one process can share a temp dir.
+//@   atcall strings.Join pieces-stay-separable[C14]: $arg1 != ""
 
 //@ func (*Task).tempDirsExist(t) (res)
 //@   props C03
@@ -232,11 +235,13 @@ package scipipe
 
 //@ ghost func loadedAudit(file string, epoch int) *AuditInfo
 //@ ghost func marshalled(a *AuditInfo) string
+//@ ghost func marshalledAny(v ref) string
 
 //@ extern io/ioutil.WriteFile(filename, data, perm) (err)
 //@   modifies effCreated, fsEpoch
 //@   ensures eff: effCreated == setAdd(old(effCreated), filename)
 //@ extern encoding/json.MarshalIndent(v, prefix, indent) (res, err)
+//@   ensures def: res == marshalledAny(v)
 
 //@ func randSeqLC(n) (res)
 //@   props C10
@@ -252,14 +257,31 @@ package scipipe
 //@   ensures maps-empty: len(res.Params) == 0 && len(res.Tags) == 0 && len(res.OutFiles) == 0 && len(res.Upstream) == 0
 //@   ensures maps-empty-dom: (forall k string :: !(k in res.Params) && !(k in res.Tags) && !(k in res.OutFiles) && !(k in res.Upstream))
 
+//@ ghost func fileBytes(name string, epoch int) string
+//@ extern io/ioutil.ReadFile(filename) (res, err)
+//@   ensures def: err == nil ==> res == fileBytes(filename, fsEpoch)
+//@ extern encoding/json.Unmarshal(data, v) (err)
+//@   modifies *
+
+// C11: every field of a record is written to and read back from the side-car file (encoding/json encodes exactly the
+// exported fields of these kinds; a field that is unexported, tagged "-", of interface/func/chan type or whose JSON name
+// collides with another one would be silently lost between runs).
+//@ typeshape AuditInfo every-field-survives-the-audit-file[C10,C11]: json-roundtrip
+
 //@ func UnmarshalAuditInfoJSONFile(fileName) (auditInfo)
 //@   props C11
-//@   trusted encoding/json works by reflection; the loaded record is represented by the uninterpreted loadedAudit(file, epoch)
+//@   trusted-frame encoding/json fills the record allocated here by reflection; nothing that existed before the call changes
+//@   modifies fresh
+//@   atcall io/ioutil.ReadFile reads-the-named-file[C11]: $arg0 == fileName
+//@   atcall encoding/json.Unmarshal decodes-the-bytes-read-into-the-returned-record[C11]: readFileErr == nil && $arg0 == auditFileData && $arg1 == auditInfo
 //@   ensures nonnil: auditInfo != nil
-//@   ensures loaded: auditInfo == loadedAudit(fileName, fsEpoch)
+//@   atreturn unreadable-file-is-fatal[C11]: readFileErr == nil || isNotExistErr(readFileErr)
+//@   atreturn undecodable-file-is-fatal[C11]: readFileErr == nil ==> unmarshalErr == nil
+//@   assumes loaded: auditInfo == loadedAudit(fileName, fsEpoch)
 
 //@ func (*FileIP).AuditFilePath(ip) (res)
 //@   props C10 C11
+//@   replay pure
 //@   ensures def: res == ip.path + ".audit.json"
 
 //@ func (*FileIP).AuditInfo(ip) (res)
@@ -313,7 +335,8 @@ package scipipe
 //@   ensures plain: !ip.doStream && baseDir == "" ==> effMkdir[dirOf(tempPathOf(ip.path))]
 
 //@ func (*FileIP).WriteAuditLogToFile(ip)
-//@   props C10 C01
+//@   props C10 C01 C11
+//@   atcall io/ioutil.WriteFile writes-the-ips-record-next-to-the-file[C10,C11]: $arg0 == ip.path + ".audit.json" && $arg1 == marshalledAny(auditInfo) && auditInfo == ip.auditInfo && jsonErr == nil
 //@   modifies ip.auditInfo, locked, effCreated, effMkdir, fsEpoch
 //@   ensures written: effCreated == setAdd(old(effCreated), ip.path + ".audit.json")
 //@   ensures record-kept: old(ip.auditInfo) != nil ==> ip.auditInfo == old(ip.auditInfo)
@@ -481,6 +504,7 @@ package scipipe
 // ---------------------------------------------------------------------------
 
 //@ define anyOutExists(t *Task) bool = exists k string :: nonStreamOut(t, k) && statOK(fsEpoch, t.OutIPs[k].path)
+//@ define allOutsExist(t *Task) bool = forall k string :: nonStreamOut(t, k) ==> statOK(fsEpoch, t.OutIPs[k].path)
 //@ define cmdSucceeded(t *Task) bool = (t.CustomExecute == nil && effExecOK[cmdLine(t, t.Command)]) || (t.CustomExecute != nil && customDone[t])
 //@ define allRenamed(t *Task) bool = forall k string :: nonStreamOut(t, k) ==> effRenamed[tmpOut(t, k)][t.OutIPs[k].path]
 //@ define allChecked(t *Task) bool = forall k string :: nonStreamOut(t, k) ==> !statNotExist(fsEpoch, pathJoin2(tmpDirOf(t), tempPathOf(t.OutIPs[k].path)))
@@ -509,10 +533,16 @@ package scipipe
 //@   ensures done-sent[C02,C05]: chanSentN(t.Done) == old(chanSentN(t.Done)) + 1
 //@   ensures slots-balanced[C06]: held(t.workflow) == old(held(t.workflow))
 //@   ensures skipped-or-finalized[C05,C09]: old(anyOutExists(t)) || (cmdSucceeded(t) && allRenamed(t))
+// Known finding F2: a task with several outputs whose earlier run was killed between two of its renames is skipped on
+// the next run (some output exists) although another output is still missing: the restart does not converge.
+//@   ensures skip-leaves-no-output-missing[C03]: old(anyOutExists(t)) ==> old(allOutsExist(t))
 //@   atcall (*Workflow).IncConcurrentTasks skip-takes-no-slots[C02,C06]: old(!anyOutExists(t)) && statNotExist(old(fsEpoch), tmpDirOf(t))
 //@   atcall (*Task).executeCommand holds-cores[C06]: held(t.workflow) == old(held(t.workflow)) + ite(t.cores > 0, t.cores, 0)
 //@   atcall fieldcall:Task.CustomExecute holds-cores[C06]: held(t.workflow) == old(held(t.workflow)) + ite(t.cores > 0, t.cores, 0)
 //@   atcall (*Task).finalizePaths only-after-success-and-check[C01,C09]: cmdSucceeded(t) && allChecked(t)
+// An output never becomes visible at its final path before its audit record is on disk: otherwise a kill in between leaves
+// an output that the resumed run adopts (skips the task) without any provenance.
+//@   atcall (*Task).finalizePaths audit-record-on-disk-before-the-outputs-appear[C10,C11]: forall o string :: o in t.OutIPs ==> effCreated[t.OutIPs[o].path + ".audit.json"]
 //@   atcall (*Workflow).DecConcurrentTasks release-after-finalize[C06]: allRenamed(t)
 //@   atsend done-only-when-complete[C05,C09]: $ch == t.Done && (old(anyOutExists(t)) || (cmdSucceeded(t) && allRenamed(t) && held(t.workflow) == old(held(t.workflow))))
 
@@ -585,6 +615,7 @@ package scipipe
 
 //@ func sortedStringMapKeys(kv) (keys)
 //@   props C14 C15
+//@   replay pure
 //@   deterministic by-contract the strictly sorted list of the keys of a map is unique (postcondition sorted-keys)
 //@   ensures sorted-keys: sortedKeysOf(keys, dom(kv))
 //@   loop 0 invariant elems: forall i int :: 0 <= i && i < len(keys) ==> $visited[keys[i]]
@@ -594,6 +625,7 @@ package scipipe
 
 //@ func sortedFileIPMapKeys(kv) (keys)
 //@   props C14 C15
+//@   replay pure
 //@   deterministic by-contract the strictly sorted list of the keys of a map is unique (postcondition sorted-keys)
 //@   ensures sorted-keys: sortedKeysOf(keys, dom(kv))
 //@   loop 0 invariant elems: forall i int :: 0 <= i && i < len(keys) ==> $visited[keys[i]]
@@ -603,6 +635,7 @@ package scipipe
 
 //@ func sortedFileIPSliceMapKeys(kv) (keys)
 //@   props C14
+//@   replay pure
 //@   deterministic by-contract the strictly sorted list of the keys of a map is unique (postcondition sorted-keys)
 //@   ensures sorted-keys: sortedKeysOf(keys, dom(kv))
 //@   loop 0 invariant elems: forall i int :: 0 <= i && i < len(keys) ==> $visited[keys[i]]
@@ -636,8 +669,8 @@ package scipipe
 //@ ghost func beforeLastSlash(x string) string
 
 // The documented modifiers (docs/writing_workflows.md): basename, dirname, %SUFFIX, s/SEARCH/REPLACE/
-//@ ghost func isSubstMod(m string) bool
-//@ ghost func isTrimMod(m string) bool
+//@ ghost func isSubstMod(m string) bool interp `expr: fullMatch(m, "s/[^/%\n]+/[^/%\n]*/")`
+//@ ghost func isTrimMod(m string) bool interp `expr: fullMatch(m, "%[^\n]*") && !matches(m, "s\\/([^\\/]+)\\/([^\\/]*)\\/")`
 //@ ghost func substA(m string) string
 //@ ghost func substB(m string) string
 //@ axiom isSubstMod.def: forall m string :: isSubstMod(m) <==> fullMatch(m, "s/[^/%\n]+/[^/%\n]*/")
@@ -731,7 +764,17 @@ package scipipe
 //@ func (*Task).formatCommand(t, cmd, portInfos, inIPs, subStreamIPs, outIPs, params, tags, prepend) (res)
 //@   props C15
 //@   deterministic structural
-//@   atcall strings.Replace all-occurrences[C15]: $arg3 < 0 && $arg1 == placeHolder.match && $arg2 == replacement
+// Replay only (never an obligation or an assumption): a failing atcall obligation is replayed on the command that
+// consists of the one placeholder the model is looking at, and the real result is compared with the documented expansion.
+//@   replay input cmd = placeholderText(portInfo.portType, portName, placeHolder.modifiers)
+//@   replay assume portName != "" && !contains(portName, "|") && !contains(portName, "{") && !contains(portName, "}") && len(placeHolder.modifiers) <= 2 && (len(placeHolder.modifiers) > 0 ==> docMod(placeHolder.modifiers[0])) && (len(placeHolder.modifiers) > 1 ==> docMod(placeHolder.modifiers[1]))
+//@   replaycheck expands-as-documented[C01,C09,C13,C15,C17,C18]: res == expandedCmd(cmd, portInfos, inIPs, subStreamIPs, outIPs, params, tags, prepend)
+// (a limit of n >= 1 replacements per loop round is as good as "all": the loop runs once per occurrence found by the
+// regexp, so k occurrences of the same placeholder get k rounds; only n == 0 would leave placeholders behind)
+//@   atcall strings.Replace every-occurrence-replaced[C15]: $arg3 != 0 && $arg1 == placeHolder.match && $arg2 == replacement
+// Known finding F5: the placeholders are replaced one after the other in the evolving command, so placeholder-like text
+// inside an inserted value (a parameter value "{i:x}", a path containing braces) is expanded again by a later round.
+//@   atcall strings.Replace inserted-text-is-not-expanded-again[C15]: !matches(replacement, "{(o|os|i|is|p|t):([^{}]+)}")
 //@   atcall strings.Replace known-type[C09,C15]: portInfo.portType == "o" || portInfo.portType == "os" || portInfo.portType == "i" || portInfo.portType == "p" || portInfo.portType == "t"
 //@   atcall strings.Replace case-o[C01,C13,C15]: portInfo.portType == "o" ==> outIPs[portName] != nil && replacement == replaceAll(applyMods(tempPathOf(outIPs[portName].path), placeHolder.modifiers), "../", "__parent__")
 //@   atcall strings.Replace case-os[C15,C17]: portInfo.portType == "os" ==> outIPs[portName] != nil && replacement == ite(hasMod(placeHolder.modifiers, "basename"), applyMods(outIPs[portName].path + ".fifo", placeHolder.modifiers), prependOf(applyMods(outIPs[portName].path + ".fifo", placeHolder.modifiers)))
@@ -1003,6 +1046,18 @@ package scipipe
 //@ func (*BaseProcess).OutPort(p, portName) (res)
 //@   props C16
 //@   ensures returns-only-if-present: portName in p.outPorts && res == p.outPorts[portName]
+//@ func (*BaseProcess).OutParamPort(p, portName) (res)
+//@   props C16 C19
+//@   ensures returns-only-if-present: portName in p.outParamPorts && res == p.outParamPorts[portName]
+//@ func (*BaseProcess).Auditf(p, msg, parts)
+//@   props C19
+//@ func (*BaseProcess).Audit(p, msg)
+//@   props C19
+//@ func (*BaseProcess).CloseAllOutPorts(p)
+//@   props C19
+//@   trusted closes the out-ports (CloseOutPorts: proved under C04/C05 to send nothing; CloseOutParamPorts is its twin); only "nothing is sent while closing" is used by the callers in package components
+//@   modifies map[string]*InPort, map[string]*OutPort, map[string]*InParamPort, map[string]*OutParamPort, chanclose, locked, closeCalls, pcloseCalls
+//@   ensures nothing-sent: outN == old(outN) && outAt == old(outAt) && poutN == old(poutN) && poutAt == old(poutAt)
 //@ func (*BaseProcess).OutPorts(p) (res)
 //@   props C16
 //@   ensures def: res == p.outPorts
@@ -1329,6 +1384,7 @@ package scipipe
 
 //@ func pathIsValid(path) (res, err)
 //@   props C09
+//@   replay pure
 //@   ensures def: err == nil && (res <==> validPath(path))
 
 //@ func NewBaseIP(path) (res)
